@@ -9,6 +9,7 @@ package main
 
 import (
 	"fmt"
+	"go/constant"
 	"golang.org/x/tools/go/ssa"
 	"go/token"
 	"math/big"
@@ -205,4 +206,137 @@ func callSitesOf(c *Ctx, fn *ssa.Function) []ssa.CallInstruction {
 	}
 	sort.Slice(out, func(i, j int) bool { return out[i].Pos() < out[j].Pos() })
 	return out
+}
+
+// T-pushonly: ParsedScript.IsPushOnly is "every opcode is at most OP_16". The loop body's paths are folded on
+// all 256 values of the element's opcode byte: an element above OP_16 ends the scan with false, any other goes
+// on to the next element; the scan that runs out of elements answers true.
+func ruleTPushOnly(c *Ctx) {
+	fn := c.P.Func("bscript/interpreter", "ParsedScript", "IsPushOnly")
+	if fn == nil {
+		c.Undecided("T-pushonly", "IsPushOnly", token.NoPos, "not found")
+		return
+	}
+	forAllLoopTable(c, "T-pushonly", "IsPushOnly", fn, ".op.val", func(v int64) bool { return v <= 0x60 },
+		"true exactly when every opcode is a push (at most OP_16 = 0x60), on all 256 opcode bytes",
+		"P2SH and SIGPUSHONLY accept or refuse unlocking scripts on the wrong opcodes")
+}
+
+// forAllLoopTable: fn scans a list and answers whether every element's byte (the base term with the given
+// suffix) satisfies want.
+func forAllLoopTable(c *Ctx, rule, key string, fn *ssa.Function, elemSuffix string, want func(int64) bool, okText, badText string) {
+	paths, err := feasiblePaths(fn, 20000)
+	if err != nil {
+		c.Undecided(rule, key, fn.Pos(), "cannot enumerate paths: "+err.Error())
+		return
+	}
+	bases := map[string]*T{}
+	for _, p := range paths {
+		for _, cd := range p.Conds {
+			baseTerms(cd.Cond, bases)
+		}
+	}
+	elem := ""
+	for k := range bases {
+		if strings.HasSuffix(k, elemSuffix) {
+			if elem != "" && elem != k {
+				c.Undecided(rule, key, fn.Pos(), "two different element terms: "+elem+", "+k)
+				return
+			}
+			elem = k
+		}
+	}
+	if elem == "" {
+		c.Undecided(rule, key, fn.Pos(), "no decision on the element's "+elemSuffix)
+		return
+	}
+	outcome := func(p *DPath) string {
+		switch {
+		case p.EndKind == "loop":
+			return "next"
+		case p.EndKind == "return" && p.Ret != nil && len(p.Ret.Results) == 1:
+			t := p.Env.Term(p.Ret.Results[0])
+			if t.K == "const" && t.C != nil && t.C.Kind() == constant.Bool {
+				if constant.BoolVal(t.C) {
+					return "true"
+				}
+				return "false"
+			}
+		}
+		return "other (" + p.EndKind + ")"
+	}
+	mentions := func(p *DPath) bool {
+		for _, cd := range p.Conds {
+			bt := map[string]*T{}
+			baseTerms(cd.Cond, bt)
+			if bt[elem] != nil {
+				return true
+			}
+		}
+		return false
+	}
+	var bad []string
+	// the scan that ends without looking at a further element
+	ends := map[string]bool{}
+	for _, p := range paths {
+		if !mentions(p) {
+			ends[outcome(p)] = true
+		}
+	}
+	if len(ends) != 1 || !ends["true"] {
+		bad = append(bad, fmt.Sprintf("with no further element the answer is %v, expected true", sortedKeys(ends)))
+	}
+	cells := 0
+	for v := int64(0); v < 256; v++ {
+		asg := map[string]*big.Int{elem: big.NewInt(v)}
+		got := map[string]bool{}
+		for _, p := range paths {
+			if !mentions(p) {
+				continue
+			}
+			ok := true
+			for _, cd := range p.Conds {
+				bt := map[string]*T{}
+				baseTerms(cd.Cond, bt)
+				if bt[elem] == nil {
+					continue
+				}
+				val, evaluated := evalTerm(cd.Cond, asg)
+				if !evaluated {
+					got["a condition that does not fold: "+cd.Cond.String()] = true
+					ok = false
+					break
+				}
+				if (val.Sign() != 0) != cd.Truth {
+					ok = false
+					break
+				}
+			}
+			if ok {
+				got[outcome(p)] = true
+			}
+		}
+		w := "false"
+		if want(v) {
+			w = "next"
+		}
+		cells++
+		if len(got) != 1 || !got[w] {
+			if len(bad) < 5 {
+				bad = append(bad, fmt.Sprintf("element %#x: code %v, rule %s", v, sortedKeys(got), map[string]string{"next": "goes on to the next element", "false": "answers false"}[w]))
+			}
+		}
+	}
+	c.Covered[rule+":cells"] = cells
+	c.MinInstances(rule, cells, 256)
+	c.Check(len(bad) == 0, rule, key, fn.Pos(), okText, key+" differs from the rule ("+badText+"): "+strings.Join(bad, "; "))
+}
+
+func sortedKeys(m map[string]bool) []string {
+	var ks []string
+	for k := range m {
+		ks = append(ks, k)
+	}
+	sort.Strings(ks)
+	return ks
 }
